@@ -66,6 +66,16 @@ func init() {
 		}
 		return &symv{types.Bool, inf}
 	}
+	externals["math.Float64bits"] = func(fr *frame, a []value) value {
+		if x, ok := a[0].(float64); ok {
+			return math.Float64bits(x)
+		}
+		t := fpTerm(a[0])
+		if t.op == "(_ to_fp 11 53)" && len(t.args) == 1 && t.args[0].s == sBV {
+			return &symv{types.Uint64, t.args[0]} // float made from its bits: the bits themselves
+		}
+		panic(pathAbort{"unsupported: math.Float64bits of a computed symbolic float"})
+	}
 	externals["math.Mod"] = func(fr *frame, a []value) value {
 		if isSym(a[0]) || isSym(a[1]) {
 			panic(pathAbort{"unsupported: math.Mod on a symbolic float"})
